@@ -96,6 +96,15 @@ func carriers(n int64) []gen.Named {
 	}
 	if n >= -(1<<53) && n <= 1<<53 {
 		add("float64", float64(n))
+		add("defined type on float64", gen.NamedF64(n))
+	}
+	// defined types (type Level int) are Go numeric types as well
+	add("defined type on int", gen.KeyInt(n))
+	if n >= 0 && n <= math.MaxUint8 {
+		add("defined type on uint8", gen.NamedU8(n))
+	}
+	if n >= -(1<<24) && n <= 1<<24 {
+		add("defined type on float32", gen.NamedF32(n))
 	}
 	return out
 }
@@ -215,6 +224,14 @@ func (p *c15) Run(i int) (res fw.Result) {
 			if s != v {
 				res.Fail("string", key, fmt.Sprintf("string %q coerces to string %q", v, s), nil)
 			}
+		case gen.NamedBool:
+			if s2, f2, b2 := stick.CoerceString(bool(v)), stick.CoerceNumber(bool(v)), stick.CoerceBool(bool(v)); s != s2 || f != f2 || b != b2 {
+				res.Fail("bool", key, fmt.Sprintf("%s coerces to (%q, %v, %v), the bool it is defined from to (%q, %v, %v)", z.Label, s, f, b, s2, f2, b2), nil)
+			}
+		case gen.KeyStr:
+			if s2, f2, b2 := stick.CoerceString(string(v)), stick.CoerceNumber(string(v)), stick.CoerceBool(string(v)); s != s2 || f != f2 || b != b2 {
+				res.Fail("string", key, fmt.Sprintf("%s coerces to (%q, %v, %v), the string it is defined from to (%q, %v, %v)", z.Label, s, f, b, s2, f2, b2), nil)
+			}
 		}
 		res.UniqueNT = 1
 	case i < p.nZoo+p.nInts:
@@ -312,7 +329,7 @@ func (p *c15) Run(i int) (res fw.Result) {
 }
 
 func (p *c15) Rule() string {
-	return "cases: every value of the Go-value zoo (nil, bools, every numeric kind at boundaries, float specials, strings incl. numeric spellings and invalid UTF-8, decimals, Stringer/Number/Boolean implementers by value and by pointer, typed nil pointers, slices, maps, arrays, structs, funcs, chans, complex, nested safe wrappers) for totality, fallback ('',0,false for unsupported kinds) and wrapper transparency at 1..3 levels; 51 boundary integers (incl. integers beyond 2^24 that a float32 still holds exactly) and the whole int16 range carried by every Go numeric kind that holds them exactly (same string/number/truth value, plain decimal string); seeded random float64 bit patterns, dyadic/decimal fractions and integral floats for float64->string->number identity (bit-exact; half of them right after the nearest float32 was printed, and printed twice) and plain-integer printing below 10^6; decimal numeric strings in 5-7 spellings (shortest, %e with 17 digits, %E, fixed, fixed with 20 decimals, leading '+', leading zeros) for string->number. Non-trivial: all enumerated values are distinct by construction; random floats/strings deduplicated by spelling."
+	return "cases: every value of the Go-value zoo (nil, bools, every numeric kind at boundaries, float specials, strings incl. numeric spellings and invalid UTF-8, decimals, Stringer/Number/Boolean implementers by value and by pointer, typed nil pointers, slices, maps, arrays, structs, funcs, chans, complex, nested safe wrappers) for totality, fallback ('',0,false for unsupported kinds) and wrapper transparency at 1..3 levels; 51 boundary integers (incl. integers beyond 2^24 that a float32 still holds exactly) and the whole int16 range carried by every Go numeric kind that holds them exactly, including defined types (type T int / uint8 / float32 / float64) (same string/number/truth value, plain decimal string); seeded random float64 bit patterns, dyadic/decimal fractions and integral floats for float64->string->number identity (bit-exact; half of them right after the nearest float32 was printed, and printed twice) and plain-integer printing below 10^6; decimal numeric strings in 5-7 spellings (shortest, %e with 17 digits, %E, fixed, fixed with 20 decimals, leading '+', leading zeros) for string->number. Non-trivial: all enumerated values are distinct by construction; random floats/strings deduplicated by spelling."
 }
 
 func (p *c15) Assumptions() []string {
